@@ -107,7 +107,7 @@ impl ProxySettings {
             if !self
                 .no_proxy_hosts
                 .iter()
-                .any(|x| host.ends_with(x.to_lowercase().as_str()))
+                .any(|x| host_matches_no_proxy(host, x.to_lowercase().as_str()))
             {
                 return match url.scheme() {
                     "http" => self.http_proxy.as_ref(),
@@ -117,6 +117,18 @@ impl ProxySettings {
             }
         }
         None
+    }
+}
+
+/// Checks if `host` is `pattern` itself or one of its subdomains. Empty patterns match nothing.
+fn host_matches_no_proxy(host: &str, pattern: &str) -> bool {
+    let pattern = pattern.strip_prefix('.').unwrap_or(pattern);
+    if pattern.is_empty() {
+        return false;
+    }
+    match host.strip_suffix(pattern) {
+        Some(rest) => rest.is_empty() || rest.ends_with('.'),
+        None => false,
     }
 }
 
